@@ -283,6 +283,18 @@ def unit_words(unit):
                     agg.outcomes["agree-" + fmt(sp)] += 1
                 if not vals:
                     continue          # Vector([]) has no schema by design; nothing to judge
+                # the same values handed over as a tuple and as a one-shot generator must be typed the same way
+                for form, arg in (("tuple", tuple(vals)), ("generator", (x for x in vals))):
+                    try:
+                        vs = Vector(arg)
+                        ss = vs.schema()
+                        agg.transitions += 1
+                        agg.compared += 1
+                        if ss is None or not agrees(sp, dt_pair(ss)) or list(vs._underlying) != vals:
+                            agg.violation(V(f"Vector.schema.{form}", symptom(sp, dt_pair(ss), w) if ss is not None else "no-schema",
+                                            {"word": list(w), "values": vals, "form": form}, fmt(sp), fmt(dt_pair(ss)) if ss is not None else None))
+                    except Exception as e:
+                        agg.violation(V(f"Vector.schema.{form}", "constructor-raises-" + type(e).__name__, {"word": list(w), "values": vals}))
                 try:
                     v = Vector(vals)
                     s = v.schema()
@@ -462,11 +474,8 @@ def check(ctx):
     r = core.guarded(engine_a, agg)
     if isinstance(r, Agg):
         agg.merge(r)
-    maxlen = ctx.pick(4, 6)
-    if ctx.thorough:
-        units = [((a, b), maxlen) for a in SYMS for b in SYMS] + [((a,), 1) for a in SYMS] + [((), 0)]
-    else:
-        units = [((a,), maxlen) for a in SYMS] + [((), 0)]
+    maxlen = ctx.pick(5, 6)
+    units = [((a, b), maxlen) for a in SYMS for b in SYMS] + [((a,), 1) for a in SYMS] + [((), 0)]
     parts = core.pmap(unit_words, units)
     tunits = [("arith", o) for o in OPS] + [("join",), ("agg",), ("csv",)]
     parts += core.pmap(unit_typed, tunits)
@@ -481,7 +490,7 @@ def coverage_goals(ctx, agg):
     bad = []
     if agg.notes.get("product_states", 0) < 20:
         bad.append("product automaton too small")
-    if agg.states < 40000:
+    if agg.states < 500000:
         bad.append("fewer words than expected")
     if agg.outcomes.get("T-agree", 0) < 500:
         bad.append("typed-result part vacuous")
